@@ -119,7 +119,7 @@ func hostileServices() []hostile {
 		{"func-panics-nil", func() *kit.N0 { panic(nil) }},
 		{"func-panics-err", func() *kit.N0 { panic(errors.New("boom-err")) }},
 		{"func-exits-goroutine", func() *kit.N0 { var m map[int]int; m[1] = 1; return nil }},
-		{"func-needs-unregistered", func(x *kit.D5) *kit.N0 { return &kit.N0{} }},
+		{"func-needs-unregistered", func(x kit.D5) *kit.N0 { return &kit.N0{} }},
 		{"func-needs-itself", func(x *kit.N0) *kit.N0 { return x }},
 		{"func-struct-value", func() keyStruct { return keyStruct{} }},
 		{"func-iface-any", func() any { return 1 }},
@@ -137,8 +137,8 @@ func hostileServices() []hostile {
 func chainServices() []hostile {
 	return []hostile{
 		{"i0-nil", func() kit.I0 { return nil }},
-		{"i0-nil-second", func() (*kit.N4, kit.I0) { return &kit.N4{}, nil }},
-		{"i0-nil-first", func() (kit.I0, *kit.N4) { return nil, &kit.N4{} }},
+		{"i0-nil-second", func() (kit.N4, kit.I0) { return kit.N4{}, nil }},
+		{"i0-nil-first", func() (kit.I0, kit.N4) { return nil, kit.N4{} }},
 		{"i0-ok", func() kit.I0 { return &kit.N0{} }},
 		{"i0-value-instance", valSvc{}},
 		{"i0-value-ctor", func() valSvc { return valSvc{} }},
@@ -399,9 +399,9 @@ func TestC15Misuse(t *testing.T) {
 			case 8:
 				check("Must*", func() {
 					// the Must helpers panic by contract; only check they panic with a message rather than crash differently
-					func() { defer func() { _ = recover() }(); godi.MustResolve[*kit.D5](tgt) }()
-					func() { defer func() { _ = recover() }(); godi.MustResolveKeyed[*kit.D5](tgt, key) }()
-					func() { defer func() { _ = recover() }(); godi.MustResolveGroup[*kit.D5](tgt, grp) }()
+					func() { defer func() { _ = recover() }(); godi.MustResolve[kit.D5](tgt) }()
+					func() { defer func() { _ = recover() }(); godi.MustResolveKeyed[kit.D5](tgt, key) }()
+					func() { defer func() { _ = recover() }(); godi.MustResolveGroup[kit.D5](tgt, grp) }()
 				})
 			}
 		}
